@@ -18,7 +18,7 @@ func init() {
 		r.floor("R4", 10)
 	}, checkC27)
 	register("C28", func(r *Report) {
-		r.Explanation = "Decides absence of an unconditional wait, for all gateway behaviours: (R1) every blocking select, receive and send in package client has a case on the awaited transaction's Done() and/or on a context derived from the client's context; (R2) every function that arms or re-arms the sleep transaction's timers ends, on every non-failing path, with a timer armed or the transaction completed, and all other awaited transactions are built on NewRetryTransaction / NewTimedTransaction (self-terminating, C19); (R3) in every API method a failed send completes the transaction (or returns) before the wait; (R4) Close cancels the context on every path; (R5) no function of package client returns with a mutex still held; (R6) a completion callback frees the store slot the transaction occupies (a stale entry swallows the gateway's DISCONNECT); (R7) lock discipline in packages client, transactions and util: nothing waits (select, channel operation, Wait, or a call that may do one) while a mutex is certainly held, and no call made under a lock reaches a function that acquires the same (non-reentrant) lock. (R8) every goroutine of the client's errgroup observes the group's context (not its parent), so a failing member stops the others and Wait returns; (R9) no packet from the gateway rewinds a retry budget: each step's Proceed is reachable only in the state awaiting that packet, a repeated PUBREC/PUBACK/... is ignored (C17-R1, re-run here). Not decided: the numeric bound; user callbacks."
+		r.Explanation = "Decides absence of an unconditional wait, for all gateway behaviours: (R1) every blocking select, receive and send in package client has a case on the awaited transaction's Done() and/or on a context derived from the client's context; (R2) every function that arms or re-arms the sleep transaction's timers ends, on every non-failing path, with a timer armed or the transaction completed, and all other awaited transactions are built on NewRetryTransaction / NewTimedTransaction (self-terminating, C19); (R3) in every API method a failed send completes the transaction (or returns) before the wait; (R4) Close cancels the context on every path; (R5) no function of package client returns with a mutex still held; (R6) a completion callback frees the store slot the transaction occupies (a stale entry swallows the gateway's DISCONNECT); (R7) lock discipline in packages client, transactions and util: nothing waits (select, channel operation, Wait, or a call that may do one) while a mutex is certainly held, and no call made under a lock reaches a function that acquires the same (non-reentrant) lock. (R8) every goroutine of the client's errgroup observes the group's context (not its parent), so a failing member stops the others and Wait returns; (R9) no packet from the gateway rewinds a retry budget: each step's Proceed is reachable only in the state awaiting that packet, a repeated PUBREC/PUBACK/... is ignored (C17-R1, re-run here); (R10) a DISCONNECT from the gateway that answers no exchange of the client's own cancels the client's context on every path. Not decided: the numeric bound; user callbacks."
 		r.floor("R1", 8)
 		r.floor("R3", 4)
 		r.floor("R4", 1)
@@ -27,6 +27,7 @@ func init() {
 		r.floor("R8", 2)
 		r.floor("R6", 8)
 		r.floor("R9", 6)
+		r.floor("R10", 1)
 	}, checkC28)
 	register("C33", func(r *Report) {
 		r.Explanation = "Decides gating and routing structure: (R1) in the keep-alive loop the ticker is created stopped, is stopped on every state notification and re-armed only on the edge 'received state == Active'; a tick calls the ping routine, on every path through the tick case; (R2) every write of the client's state goes through the wrapper that notifies the loop when the state changed; (R3) every (re)transmission of a keep-alive PINGREQ - including the ping transaction's retry callback - is dominated by a test that the state is Active; (R4) a PINGRESP is routed to the transaction that asked for it: with a keep-alive ping and a sleep transaction both pending, the dispatcher must be able to tell them apart. R3 and R4 are known findings today. (R5) the channel on which the receive loop announces state changes has capacity >= 1 as long as the keep-alive loop may wait, inside its tick case, for a packet only the receive loop can deliver (otherwise the two wait for each other); (R6) typestate of the sleep transaction: the state in which its PINGRESP / DISCONNECT handler accepts the reply is entered only by a step that sends the PINGREQ / DISCONNECT the reply answers, so a reply of another exchange is never taken for it, and in every other state these handlers do nothing but log (a stray reply never fails the Sleep in progress). Not decided: 'at least once per KeepAlive period' (timing), starvation of the capacity-1 notification channel."
@@ -715,23 +716,40 @@ func checkC28(c *Ctx, r *Report) {
 			continue
 		}
 		r.fn(f)
-		isCancel := func(x ssa.Instruction) bool {
-			cj, ok := x.(ssa.CallInstruction)
-			if !ok {
-				return false
-			}
-			if u, ok := cj.Common().Value.(*ssa.UnOp); ok {
-				if fa, ok := u.X.(*ssa.FieldAddr); ok && strings.Contains(strings.ToLower(fieldName(fa.X.Type(), fa.Field)), "cancel") {
-					return true
-				}
-			}
-			return false
-		}
+		isCancel := c.cancelFieldCall("client")
 		reach, at := pathExists(f, nil, func(x ssa.Instruction) bool { _, ok := x.(*ssa.Return); return ok }, isCancel)
 		if reach {
 			r.bad("R4", fnKey(f)+":cancels-on-every-path", c.instrPos(at), "Close can return without cancelling the client's context: the receive and keep-alive goroutines keep running")
 		} else {
 			r.ok("R4", fnKey(f)+":cancels-on-every-path", c.pos(f.Pos()), "every return of Close passes the cancel call")
+		}
+	}
+	// R10: "after ... a DISCONNECT from the gateway, all client goroutines exit": the dispatcher's DISCONNECT case
+	// with no exchange of the client's own pending (an unsolicited DISCONNECT) cancels the client's context on
+	// every path
+	{
+		isCancel := c.cancelFieldCall("client")
+		e := m.clientExplorer()
+		base := e.Event
+		e.Event = func(i ssa.Instruction, ex *explorer, ps *pstate, fr *frame) (string, bool, bool) {
+			if isCancel(i) {
+				return "cancel-client-context", true, true
+			}
+			return base(i, ex, ps, fr)
+		}
+		outs := e.Explore(m.snDisp, map[string]aval{"type:sn": kstr("*packets1.Disconnect"), "type:tx": kstr("none")}, nil)
+		key := "client-DISCONNECT[no exchange pending]:cancels"
+		okc := len(outs) > 0
+		detail := ""
+		for _, o := range outs {
+			if !hasEventPrefix(o, "cancel-client-context") && !retIsError(o) {
+				okc, detail = false, "a DISCONNECT from the gateway that answers nothing the client asked for is handled without cancelling the client's context: the receive and keep-alive goroutines keep running and Wait() never returns: "+strings.Join(o.Events, " ; ")
+			}
+		}
+		if len(outs) == 0 {
+			r.undecided("R10", key, c.pos(m.snDisp.Pos()), "DISCONNECT case of the client dispatcher not explored")
+		} else {
+			r.cond(okc, "R10", key, c.pos(m.snDisp.Pos()), firstOutcome(outs), detail)
 		}
 	}
 	// R5: lock balance
@@ -1447,4 +1465,46 @@ func packetTypeName(k int64) string {
 		return n
 	}
 	return fmt.Sprintf("type%#x", k)
+}
+
+// cancelFieldCall: predicate "this instruction calls the cancel function of the package's long-lived context": a
+// dynamic call of a value loaded from a struct field that some function of the package assigns from the second result
+// of context.WithCancel (or an errgroup/context derivation of it).
+func (c *Ctx) cancelFieldCall(rel string) func(ssa.Instruction) bool {
+	cells := map[string]bool{}
+	for _, f := range c.repoFuncs(rel) {
+		allInstrs(f, func(i ssa.Instruction) {
+			st, ok := i.(*ssa.Store)
+			if !ok {
+				return
+			}
+			fa, ok := st.Addr.(*ssa.FieldAddr)
+			if !ok {
+				return
+			}
+			v := st.Val
+			if ct, ok := v.(*ssa.ChangeType); ok {
+				v = ct.X
+			}
+			if ex, ok := v.(*ssa.Extract); ok && ex.Index == 1 {
+				if call, ok := ex.Tuple.(*ssa.Call); ok {
+					if n := calleeName(&call.Call); n == "context.WithCancel" || n == "context.WithTimeout" || n == "context.WithDeadline" {
+						cells[fieldCell(fa)] = true
+					}
+				}
+			}
+		})
+	}
+	return func(x ssa.Instruction) bool {
+		cj, ok := x.(ssa.CallInstruction)
+		if !ok || cj.Common().IsInvoke() {
+			return false
+		}
+		if u, ok := cj.Common().Value.(*ssa.UnOp); ok {
+			if fa, ok := u.X.(*ssa.FieldAddr); ok && cells[fieldCell(fa)] {
+				return true
+			}
+		}
+		return false
+	}
 }
